@@ -97,6 +97,8 @@ class CustomOperatorAdd(OperatorAdd):
     def operate_binary(self, tokens):
         left, right = tokens.get_left(), tokens.get_right()
         if not left.baseunits.nodim:
+            if left.baseunits.dimensions != right.baseunits.dimensions:
+                raise Exception('Unsupported conversion between units:', right.units(), left.units())
             right.to(left.baseunits)
         tokens.put_left(left + right)
 
@@ -122,6 +124,8 @@ class CustomOperatorSub(OperatorSub):
     def operate_binary(self, tokens):
         left, right = tokens.get_left(), tokens.get_right()
         if not left.baseunits.nodim:
+            if left.baseunits.dimensions != right.baseunits.dimensions:
+                raise Exception('Unsupported conversion between units:', right.units(), left.units())
             right.to(left.baseunits)
         tokens.put_left(left - right)
 
